@@ -382,7 +382,8 @@ def run(ctx):
     from .c06 import memo_rule
     memo_rule(ctx, 'R05d', 'MPS._get_single_cost',
               ctx.repo.cls('MPS').methods['_get_single_cost'], 1, 2)
-    from .c04 import accumulation_rule, leaf_lists_rule, lookup_key_rule
+    from .c04 import accumulation_rule, leaf_lists_rule, lookup_key_rule, uniquify_rule
+    uniquify_rule(ctx, 'R05f')
     lookup_key_rule(ctx, 'R05g', 'MPS')
     leaf_lists_rule(ctx, 'R05f', 'MPS')
     accumulation_rule(ctx, 'R05e', 'MPS._get_single_cost',
